@@ -336,9 +336,7 @@ class Flow:
         if isinstance(f, ast.Name) and f.id in env:
             classes = []
         if classes:
-            test_reads = BOT
-            if isinstance(f, ast.IfExp):
-                test_reads = self._tests(f, obj, m, env)
+            test_reads = self._selector_reads(f, obj, m, env)
             out = Val(frozenset(self.construct(c, pos, kw) for c in classes), test_reads.reads)
             return out
         if isinstance(f, ast.Name):
@@ -385,6 +383,25 @@ class Flow:
             return out
         # callee is itself a call / subscript etc.
         return self.eval(f, obj, m, env) | argdata
+
+    def _selector_reads(self, f: ast.expr, obj, m, env) -> Val:
+        """What decides WHICH class a class-valued callee expression denotes: tests of conditionals, the selector of
+        {key: Class}.get(selector, Default) / {..}[selector], the arguments of a class-valued helper."""
+        if isinstance(f, ast.IfExp):
+            return self.eval(f.test, obj, m, env).data() | self._selector_reads(f.body, obj, m, env) | self._selector_reads(f.orelse, obj, m, env)
+        if isinstance(f, ast.Call) and isinstance(f.func, ast.Attribute) and f.func.attr == "get" and f.args:
+            acc = self.eval(f.args[0], obj, m, env).data()
+            for a in f.args[1:]:
+                acc = acc | self._selector_reads(a, obj, m, env)
+            return acc
+        if isinstance(f, ast.Subscript) and not isinstance(f.slice, ast.Slice):
+            return self.eval(f.slice, obj, m, env).data()
+        if isinstance(f, ast.Call):
+            acc = BOT
+            for a in f.args:
+                acc = acc | self.eval(a, obj, m, env).data()
+            return acc
+        return BOT
 
     def _tests(self, f: ast.IfExp, obj, m, env) -> Val:
         acc = self.eval(f.test, obj, m, env).data()
